@@ -74,7 +74,7 @@ class SimSemLock:
 
     def release(self):
         k = state.K
-        a = k.enter('sem-release')
+        a = k.enter('sem-release', deliver=False)
         s = self._s
         if self.kind == RECURSIVE_MUTEX:
             if not self._ismine(a):
@@ -82,6 +82,7 @@ class SimSemLock:
             if self._cnt > 1:
                 self._cnt -= 1
                 k.record('sem-rel', s.id, 'rec')
+                k.after_nonblocking(a)
                 return
         else:
             if s.value >= s.maxvalue:
@@ -89,6 +90,7 @@ class SimSemLock:
         s.value += 1
         self._cnt -= 1
         k.record('sem-rel', s.id, s.value)
+        k.after_nonblocking(a)
 
     def __enter__(self):
         return self.acquire()
@@ -105,13 +107,17 @@ class SimSemLock:
 
     def _get_value(self):
         k = state.K
-        k.enter('sem-getvalue')
-        return self._s.value
+        a = k.enter('sem-getvalue', deliver=False)
+        v = self._s.value
+        k.after_nonblocking(a)
+        return v
 
     def _is_zero(self):
         k = state.K
-        k.enter('sem-iszero')
-        return self._s.value == 0
+        a = k.enter('sem-iszero', deliver=False)
+        v = self._s.value == 0
+        k.after_nonblocking(a)
+        return v
 
     def _after_fork(self):
         self._cnt = 0
